@@ -23,6 +23,8 @@ SCRIPTS = {
     "server_close_early": {"c": [W(0, 10)], "s": [{"op": "close", "code": 0, "reason": "bye", "g": "now"}]},
     # resumption with early data: the first client datagram coalesces Initial + 0-RTT
     "zr_early_request": {"c": [W(0, 300, True, g="now")], "s": [W(0, 9000, True, g=("rx", 0, 1))]},
+    "zr_coalesced_request": {"c": [W(0, 300, True, g="pre")], "s": [W(0, 9000, True, g=("rx", 0, 1))]},
+    "zr_coalesced_bulk": {"c": [W(0, 5200, True, g="pre")], "s": [W(1, 9000, True, g="now")]},
     "zr_bulk_4600": {"c": [W(0, 4600, True, g="now")]},
     "zr_bulk_5200": {"c": [W(0, 5200, True, g="now")]},
     "zr_bulk_8000": {"c": [W(0, 8000, True, g="now")]},
@@ -70,6 +72,9 @@ def scenarios(tier, seed):
     out["srvclose|big"] = {"script": "server_close_early", "cfg": {"chain": "bigchain"}}
     out["migrate|ed"] = {"script": "migrate_then_bulk", "cfg": {"chain": "ed25519"}}
     out["zr|early_request"] = {"script": "zr_early_request", "cfg": {}, "resume": True}
+    out["zr|coalesced_request"] = {"script": "zr_coalesced_request", "cfg": {}, "resume": True}
+    out["zr|coalesced_bulk"] = {"script": "zr_coalesced_bulk", "cfg": {}, "resume": True}
+    out["zr|coalesced_bulk_flightlost"] = {"script": "zr_coalesced_bulk", "cfg": {"c_drop_first": 6}, "resume": True}
     out["zr|early_request_lost2"] = {"script": "zr_early_request", "cfg": {"c_drop_first": 0}, "resume": True}
     for n in (4600, 5200, 8000):
         out["zr|bulk%d" % n] = {"script": "zr_bulk_%d" % n, "cfg": {}, "resume": True}
